@@ -68,6 +68,10 @@ CLAIMS = {
   text="(A) TLC model-checks the implementation-shaped optimizer (OptSearchInterval bounds/pivot arithmetic, _optimize linear and binary search, min/max, Int / unsigned / signed BV objectives, lexicographic wrapper, Pareto loop) over a nondeterministic satisfiability oracle: every Sat subset of the model space, every objective valuation, every sequence of answers; termination (liveness, weak fairness), result = optimum / lexicographic optimum / exact Pareto front, None iff unsat, cuts representable, stack restored; the model of the pinned lexicographic wrapper must leak a level (vacuity guard). (B/C) the real SUA and incremental mixins run on a brute-force oracle over 8 finite-domain systems x goal kinds (incl. MinMax/MaxMin/MaxSMT) x {linear,binary} x adversarial oracle policies; TLC validates every oracle answer with Eval and the final outcome against the optimum it computes itself, plus the assertion stack before/after.",
   note="real-valued bisection excluded as in the property; oracle answers re-validated by TLC; routines are run under a 20 s limit (non-termination is reported as a violation)",
   tech=TECH + "design model checking over a nondeterministic oracle + real optimizer runs on a brute-force oracle validated by TLC", ref="DESIGN.md 3 C18"),
+ "C19": dict(
+  text="(A) TLC model-checks parent, 3 member processes, the signalling queue and the single shared control pipe for every member-behaviour vector (answer / raise-or-unknown / crash before posting / crash after posting) and every interleaving: Agreement, NoLoserConsumesCtrl, RaisesOnlyIfNobodyAnswered, liveness SolveReturns and AnswerIfSomeoneAnswers under weak fairness; the model of the pinned code must yield the blocking counterexample. (B/C) TLC-enumerated schedules (behaviour vector x release order x members released while the winner is being selected x near-ties) are replayed on the real Portfolio with real forked processes whose completion is gated; blocking is decided structurally (parent inside solve, every member dead, queue empty); TLC validates verdict, error-instead-of-blocking, that only the winner serves control commands, and the model/value against the assertions with Eval, over one or two consecutive solves.",
+  note="fake member solvers registered in the environment's factory; the gating wrappers around multiprocessing.Process/Queue only delay and log; get_model on a winner that died after posting is outside the property",
+  tech=TECH + "design model checking of the process/queue/pipe protocol (safety + liveness) + TLC-enumerated schedules replayed on real forked processes, outcomes validated by TLC", ref="DESIGN.md 3 C19"),
 }
 NA_REASON = "check under construction in this round (planned with the same TLA+/TLC technique, see DESIGN.md)"
 
